@@ -4,6 +4,7 @@ package vrt
 
 import (
 	"fmt"
+	"reflect"
 	"unsafe"
 )
 
@@ -170,6 +171,10 @@ func Recv[T any](ch <-chan T) T {
 // Recv2 implements v, ok := <-ch.
 func Recv2[T any](ch <-chan T) (T, bool) {
 	w := W
+	if w == nil { // native mode (see sync.go)
+		v, ok := <-ch
+		return v, ok
+	}
 	w.checkDead()
 	c := w.chanOf(rchanKey(ch), cap(ch))
 	t := w.cur
@@ -200,6 +205,10 @@ func SendTo[T any](ch chan<- T) Sender[T] { return Sender[T]{ch} }
 // V completes the send.
 func (s Sender[T]) V(v T) {
 	w := W
+	if w == nil {
+		s.ch <- v
+		return
+	}
 	w.checkDead()
 	c := w.chanOf(schanKey(s.ch), cap(s.ch))
 	t := w.cur
@@ -220,6 +229,10 @@ func (s Sender[T]) V(v T) {
 // Close implements close(ch).
 func Close[T any](ch chan<- T) {
 	w := W
+	if w == nil {
+		close(ch)
+		return
+	}
 	w.checkDead()
 	c := w.chanOf(schanKey(ch), cap(ch))
 	if c == nil {
@@ -239,6 +252,9 @@ func Close[T any](ch chan<- T) {
 // Len implements len(ch).
 func Len[T any](ch chan T) int {
 	w := W
+	if w == nil {
+		return len(ch)
+	}
 	w.checkDead()
 	c := w.chanOf(chanKey(ch), cap(ch))
 	if c == nil {
@@ -255,10 +271,13 @@ type SelCase struct {
 	cap  int
 	send bool
 	val  any
+	ch   any // the Go channel itself (native mode only)
 }
 
 // CaseRecv builds a receive case.
-func CaseRecv[T any](ch <-chan T) SelCase { return SelCase{key: rchanKey(ch), cap: cap(ch)} }
+func CaseRecv[T any](ch <-chan T) SelCase {
+	return SelCase{key: rchanKey(ch), cap: cap(ch), ch: ch}
+}
 
 // CaseSender builds a send case.
 type CaseSender[T any] struct{ ch chan<- T }
@@ -268,7 +287,7 @@ func CaseSend[T any](ch chan<- T) CaseSender[T] { return CaseSender[T]{ch} }
 
 // V completes a send case.
 func (s CaseSender[T]) V(v T) SelCase {
-	return SelCase{key: schanKey(s.ch), cap: cap(s.ch), send: true, val: any(v)}
+	return SelCase{key: schanKey(s.ch), cap: cap(s.ch), send: true, val: any(v), ch: s.ch}
 }
 
 // SelResult carries the value received by the chosen case.
@@ -286,6 +305,9 @@ func SelRecv2[T any](r SelResult, ch <-chan T) (T, bool) { return unbox[T](r.val
 // Select implements a select statement; it returns the index of the chosen case, -1 for default.
 func Select(hasDefault bool, cases ...SelCase) (int, SelResult) {
 	w := W
+	if w == nil {
+		return nativeSelect(hasDefault, cases)
+	}
 	w.checkDead()
 	t := w.cur
 	sel := make([]selCase, len(cases))
@@ -365,7 +387,12 @@ func (c *chanState) String() string {
 // (used by context cancellation, whose visible operation was already taken).
 func CloseNoYield[T any](ch chan T) {
 	w := W
-	if w == nil || w.dead {
+	if w == nil {
+		defer func() { recover() }() // already closed
+		close(ch)
+		return
+	}
+	if w.dead {
 		return
 	}
 	c := w.chanOf(chanKey(ch), cap(ch))
@@ -377,4 +404,36 @@ func CloseNoYield[T any](ch chan T) {
 	if w.race != nil {
 		w.race.chanClose(w.cur, c)
 	}
+}
+
+// nativeSelect is Select outside of an execution: reflect.Select over the real channels.
+func nativeSelect(hasDefault bool, cases []SelCase) (int, SelResult) {
+	rc := make([]reflect.SelectCase, 0, len(cases)+1)
+	for _, c := range cases {
+		chv := reflect.ValueOf(c.ch)
+		if c.send {
+			v := reflect.ValueOf(c.val)
+			if !v.IsValid() {
+				v = reflect.Zero(chv.Type().Elem())
+			}
+			rc = append(rc, reflect.SelectCase{Dir: reflect.SelectSend, Chan: chv, Send: v})
+		} else {
+			rc = append(rc, reflect.SelectCase{Dir: reflect.SelectRecv, Chan: chv})
+		}
+	}
+	if hasDefault {
+		rc = append(rc, reflect.SelectCase{Dir: reflect.SelectDefault})
+	}
+	i, v, ok := reflect.Select(rc)
+	if hasDefault && i == len(cases) {
+		return -1, SelResult{}
+	}
+	if cases[i].send {
+		return i, SelResult{}
+	}
+	var val any
+	if v.IsValid() {
+		val = v.Interface()
+	}
+	return i, SelResult{val, ok}
 }
